@@ -21,6 +21,10 @@ mod reader;
 mod shm_header;
 mod writer;
 
+/// Verification hook (instrumented atomics), compiled only with `--cfg aws_clock_bound_verif`.
+#[cfg(aws_clock_bound_verif)]
+pub mod verif_shim;
+
 use errno::Errno;
 use nix::sys::time::{TimeSpec, TimeValLike};
 use std::ffi::CStr;
